@@ -164,6 +164,29 @@ pub fn drive(args: &Args) -> i32 {
     // fractions: on and +-0.4 ms around second / minute / hour / day boundaries, plus random
     let o = &mut outs[0];
     let ks: [i64; 12] = [0, 1, 999, 1000, 59_999, 60_000, 3_599_999, 3_600_000, 43_200_000, 86_399_000, 86_399_998, 86_399_999];
+    // the special serials in BOTH date systems (a time of day on 1900-02-28 = serial 59.x, on 1900-03-01,
+    // around the 1904 offset ...), with every boundary fraction
+    for sys in [1900u32, 1904] {
+        for serial in [0i64, 1, 2, 58, 59, 61, 62, 1461, 1462, 1463, 25_569, 44_000] {
+            for k in ks.iter() {
+                for delta in [0.0, 0.4, -0.4] {
+                    if *k == 0 && delta < 0.0 || *k == 86_399_999 && delta > 0.0 { continue; }
+                    writeln!(o, "{}", frac_event(sys, serial, *k, delta)).unwrap();
+                }
+            }
+            // less than half a millisecond below midnight rounds UP to the next day, 00:00:00.000 --
+            // for the date, the time and the date-time alike (not across the fictitious 1900-02-29)
+            if !(sys == 1900 && (serial == 59 || serial == 58)) {
+                let f = serial as f64 + 86_399_999.6 / DAY_MS;
+                let ev = match convert(f, sys == 1904, None) {
+                    Ok(Some(dt)) => json!({"e": "frac", "sys": sys, "serial": serial + 1, "k": 0, "delta": "-0.4 (built below midnight)", "ymd": ymd(&dt), "t": hms(&dt)}),
+                    Ok(None) => json!({"e": "frac", "sys": sys, "serial": serial + 1, "k": 0, "ymd": [], "t": [], "none": true}),
+                    Err(m) => json!({"e": "frac", "sys": sys, "serial": serial + 1, "k": 0, "ymd": [], "t": [], "problem": m}),
+                };
+                writeln!(o, "{}", ev).unwrap();
+            }
+        }
+    }
     let nfrac = if full { 4000 } else { 250 };
     for i in 0..nfrac {
         let sys = if i % 2 == 0 { 1900 } else { 1904 };
